@@ -122,6 +122,7 @@ func Note(tag string, v ...any) {
 }
 func HeldLocks() int         { return -1 }
 func Guard(obj any, mu any, name string) {}
+func GuardField(obj any, holder any, field string, name string) {}
 func GuardViolations() int   { return 0 }
 func Symbolic() bool         { return false }
 func Faults() int            { return -1 }
